@@ -171,6 +171,37 @@ theorem responses_pair (c : Cfg) (maxQ : Nat) (ops : List Op) (g g' : G)
       | republish sid seq =>
         simp only [gstep] at hs; cases hs
         unfold republish; split <;> simpa [respIds, reqIds] using hi
+      | modifySub sid p i k l =>
+        simp only [gstep] at hs; cases hs
+        unfold modifySub; split <;> simpa [respIds, reqIds] using hi
+      | setMode sid iid m =>
+        simp only [gstep] at hs; cases hs
+        unfold setMode; split
+        · simpa [respIds, reqIds] using hi
+        · simp only []; split <;> simpa [respIds, reqIds] using hi
+      | modifyItem sid iid hd q d sp =>
+        have hfr : (modifyItem g.ss maxQ sid iid hd q d sp).1.reqs = g.ss.reqs ∧
+            (modifyItem g.ss maxQ sid iid hd q d sp).1.resps = g.ss.resps := by
+          unfold modifyItem
+          split
+          · exact ⟨rfl, rfl⟩
+          · simp only []
+            split
+            · exact ⟨rfl, rfl⟩
+            · split <;> exact ⟨rfl, rfl⟩
+        simp only [gstep] at hs
+        split at hs
+        · cases hs
+        · cases hs
+          simpa [respIds, reqIds, hfr.1, hfr.2] using hi
+      | setTriggering sid iid a r =>
+        simp only [gstep] at hs; cases hs
+        unfold setTriggering; split
+        · simpa [respIds, reqIds] using hi
+        · simp only []; split <;> simpa [respIds, reqIds] using hi
+      | resend sid =>
+        simp only [gstep] at hs; cases hs
+        unfold resendData; split <;> simpa [respIds, reqIds] using hi
       | take =>
         simp only [gstep, takeResponses] at hs; cases hs
         simpa [respIds, reqIds] using hi
@@ -368,12 +399,25 @@ theorem tickItems_not_elapsed (nodes : List (Nat × Nat)) (now : Nat) (resend : 
   | nil => rfl
   | cons it rest ih => simp [tickItems, ih]
 
+theorem triggeredBy_not_elapsed (nodes : List (Nat × Nat)) (now : Nat) (resend : Bool) (items : List MItem) :
+    triggeredBy nodes now false resend items = [] := by
+  unfold triggeredBy
+  induction items with
+  | nil => rfl
+  | cons it rest ih => simpa using ih
+
+/-- nothing is handed over (neither by the loop nor by triggering) when the interval did not elapse -/
+theorem tickAll_not_elapsed (nodes : List (Nat × Nat)) (now : Nat) (resend : Bool) (items : List MItem) :
+    (tickAll nodes now false resend items).2 = [] := by
+  unfold tickAll
+  simp [tickItems_not_elapsed, triggeredBy_not_elapsed, triggerItems]
+
 theorem collectStep_not_elapsed (nodes : List (Nat × Nat)) (now : Nat) (s : Subn) :
     (collectStep nodes now false s).2 = none := by
   unfold collectStep
   split
   · rfl
-  · simp [tickItems_not_elapsed]
+  · simp [tickAll_not_elapsed]
 
 /-- the subscription is about to expire on its next state update -/
 def Expiring (s : Subn) : Prop :=
@@ -851,6 +895,74 @@ theorem notifsOf_updSub_same (subs : List Subn) (k : Nat) (s s2 : Subn) (sid : N
 theorem flow_eq (g : G) (sid : Nat) : flow g sid = sentMsgs g.sent sid ++ inSess g.ss sid := by
   simp [flow, inSess, List.append_assoc]
 
+/-! the new operations change a subscription without touching its queue or its counters -/
+
+/-- `ss'` is `ss` with one subscription replaced by one with the same id, queue and counters -/
+def UpdShape (ss ss' : Sess) : Prop :=
+  ss' = ss ∨ ∃ k s s2, getSub ss.subs k = some s ∧ s2.id = s.id ∧ s2.notifs = s.notifs ∧
+    s2.lastSeq = s.lastSeq ∧ s2.seqNext = s.seqNext ∧ ss' = { ss with subs := updSub ss.subs s2 }
+
+/-- `ss'` is `ss` with a map over the subscriptions that keeps ids, queues and counters -/
+def MapShape (ss ss' : Sess) : Prop :=
+  ss' = ss ∨ ∃ f : Subn → Subn, (∀ s, (f s).id = s.id ∧ (f s).notifs = s.notifs ∧
+    (f s).lastSeq = s.lastSeq ∧ (f s).seqNext = s.seqNext) ∧ ss' = { ss with subs := ss.subs.map f }
+
+theorem modifySub_shape (ss : Sess) (sid p i k l : Nat) : MapShape ss (modifySub ss sid p i k l).1 := by
+  unfold modifySub
+  split
+  · exact Or.inr ⟨_, fun s => by split <;> exact ⟨rfl, rfl, rfl, rfl⟩, rfl⟩
+  · exact Or.inl rfl
+
+theorem resendData_shape (ss : Sess) (sid : Nat) : MapShape ss (resendData ss sid).1 := by
+  unfold resendData
+  split
+  · exact Or.inr ⟨_, fun s => by split <;> exact ⟨rfl, rfl, rfl, rfl⟩, rfl⟩
+  · exact Or.inl rfl
+
+theorem setMode_shape (ss : Sess) (sid iid : Nat) (m : Mode) : UpdShape ss (setMode ss sid iid m).1 := by
+  unfold setMode
+  split
+  · exact Or.inl rfl
+  · rename_i s hs
+    simp only []
+    split
+    · exact Or.inr (by refine ⟨sid, s, _, hs, ?_, ?_, ?_, ?_, rfl⟩ <;> rfl)
+    · exact Or.inl rfl
+
+theorem setTriggering_shape (ss : Sess) (sid iid : Nat) (a r : List Nat) :
+    UpdShape ss (setTriggering ss sid iid a r).1 := by
+  unfold setTriggering
+  split
+  · exact Or.inl rfl
+  · rename_i s hs
+    simp only []
+    split
+    · exact Or.inl rfl
+    · exact Or.inr (by refine ⟨sid, s, _, hs, ?_, ?_, ?_, ?_, rfl⟩ <;> rfl)
+
+theorem modifyItem_shape (ss : Sess) (maxQ sid iid h q : Nat) (d : Bool) (sp : Option Nat) :
+    UpdShape ss (modifyItem ss maxQ sid iid h q d sp).1 := by
+  unfold modifyItem
+  split
+  · exact Or.inl rfl
+  · rename_i s hs
+    simp only []
+    split
+    · exact Or.inr (by refine ⟨sid, s, _, hs, ?_, ?_, ?_, ?_, rfl⟩ <;> rfl)
+    · split
+      · exact Or.inl rfl
+      · exact Or.inr (by refine ⟨sid, s, _, hs, ?_, ?_, ?_, ?_, rfl⟩ <;> rfl)
+
+theorem inSess_of_UpdShape (ss ss' : Sess) (h : UpdShape ss ss') (sid : Nat) : inSess ss' sid = inSess ss sid := by
+  rcases h with rfl | ⟨k, s, s2, hs, e1, e2, _, _, rfl⟩
+  · rfl
+  · simp only [inSess]; rw [notifsOf_updSub_same _ _ _ _ _ hs e1 e2]
+
+theorem inSess_of_MapShape (ss ss' : Sess) (h : MapShape ss ss') (sid : Nat) : inSess ss' sid = inSess ss sid := by
+  rcases h with rfl | ⟨f, hf, rfl⟩
+  · rfl
+  · simp only [inSess]; rw [notifsOf_map _ f (fun s => (hf s).1) (fun s => (hf s).2.1)]
+
 /-- one operation of the history only appends to the flow of a subscription (unless it deletes it) -/
 theorem gstep_flow (c : Cfg) (maxQ : Nat) (g g' : G) (op : Op) (sid : Nat) (hd : op ≠ .deleteSub sid)
     (h : gstep c maxQ g op = some g') : ∃ l, flow g' sid = flow g sid ++ l := by
@@ -934,6 +1046,24 @@ theorem gstep_flow (c : Cfg) (maxQ : Nat) (g g' : G) (op : Op) (sid : Nat) (hd :
       · intro s; split <;> rfl
       · intro s; split <;> rfl
     · rfl
+  | modifySub sid' p i k l =>
+    simp only [gstep] at h; cases h
+    exact same _ (inSess_of_MapShape _ _ (modifySub_shape _ _ _ _ _ _) sid)
+  | setMode sid' iid m =>
+    simp only [gstep] at h; cases h
+    exact same _ (inSess_of_UpdShape _ _ (setMode_shape _ _ _ _) sid)
+  | modifyItem sid' iid hd' q d sp =>
+    simp only [gstep] at h
+    split at h
+    · cases h
+    · cases h
+      exact same _ (inSess_of_UpdShape _ _ (modifyItem_shape _ _ _ _ _ _ _ _) sid)
+  | setTriggering sid' iid a r =>
+    simp only [gstep] at h; cases h
+    exact same _ (inSess_of_UpdShape _ _ (setTriggering_shape _ _ _ _ _) sid)
+  | resend sid' =>
+    simp only [gstep] at h; cases h
+    exact same _ (inSess_of_MapShape _ _ (resendData_shape _ _) sid)
   | take =>
     simp only [gstep, takeResponses] at h; cases h
     refine ⟨[], ?_⟩
@@ -1357,6 +1487,40 @@ theorem INV_of_frame (g : G) (ss' : Sess) (hi : INV g)
 theorem chain_prefix (a : Nat) (x y : List Nat) (h : chain a (x ++ y)) : chain a x :=
   ((chain_append_iff a x y).mp h).1
 
+theorem INV_of_UpdShape (g : G) (ss' : Sess) (hi : INV g) (h : UpdShape g.ss ss') : INV { g with ss := ss' } := by
+  have hin := inSess_of_UpdShape _ _ h
+  rcases h with rfl | ⟨k, s, s2, hs, e1, e2, e3, e4, rfl⟩
+  · exact hi
+  · have hk : s.id = k := getSub_id _ _ _ hs
+    refine INV_of_frame g _ hi hin (fun sid s' hs' => ?_) (fun sid hn => ?_) rfl
+    · simp only [] at hs'
+      rw [getSub_updSub] at hs'
+      split at hs'
+      · rename_i hsid
+        split at hs'
+        · cases hs'
+          exact ⟨s, by rw [hsid, e1, hk]; exact hs, e3, e4⟩
+        · cases hs'
+      · exact ⟨s', hs', rfl, rfl⟩
+    · simp only []
+      rw [getSub_updSub]
+      split
+      · have : hasSub g.ss.subs sid = false := (getSub_none_iff _ _).mp hn
+        simp [this]
+      · exact hn
+
+theorem INV_of_MapShape (g : G) (ss' : Sess) (hi : INV g) (h : MapShape g.ss ss') : INV { g with ss := ss' } := by
+  have hin := inSess_of_MapShape _ _ h
+  rcases h with rfl | ⟨f, hf, rfl⟩
+  · exact hi
+  · refine INV_of_frame g _ hi hin (fun sid s' hs' => ?_) (fun sid hn => ?_) rfl
+    · simp only [] at hs'
+      rw [getSub_map _ _ (fun s => (hf s).1)] at hs'
+      cases hg : getSub g.ss.subs sid with
+      | none => rw [hg] at hs'; cases hs'
+      | some s => rw [hg] at hs'; simp at hs'; subst hs'; exact ⟨s, rfl, (hf s).2.2.1, (hf s).2.2.2⟩
+    · simp only []; rw [getSub_map _ _ (fun s => (hf s).1), hn]; rfl
+
 theorem gstep_INV (c : Cfg) (maxQ : Nat) (g g' : G) (op : Op) (hi : INV g)
     (h : gstep c maxQ g op = some g') : INV g' := by
   cases op with
@@ -1551,6 +1715,24 @@ theorem gstep_INV (c : Cfg) (maxQ : Nat) (g g' : G) (op : Op) (hi : INV g)
         | some s => rw [hg] at hs'; simp at hs'; subst hs'; exact ⟨s, rfl, by split <;> rfl, by split <;> rfl⟩
       · simp only []; rw [getSub_map _ _ (by intro s; split <;> rfl), hn]; rfl
     · exact hi
+  | modifySub sid' p i k l =>
+    simp only [gstep] at h; cases h
+    exact INV_of_MapShape g _ hi (modifySub_shape _ _ _ _ _ _)
+  | setMode sid' iid m =>
+    simp only [gstep] at h; cases h
+    exact INV_of_UpdShape g _ hi (setMode_shape _ _ _ _)
+  | modifyItem sid' iid hd' q d sp =>
+    simp only [gstep] at h
+    split at h
+    · cases h
+    · cases h
+      exact INV_of_UpdShape g _ hi (modifyItem_shape _ _ _ _ _ _ _ _)
+  | setTriggering sid' iid a r =>
+    simp only [gstep] at h; cases h
+    exact INV_of_UpdShape g _ hi (setTriggering_shape _ _ _ _ _)
+  | resend sid' =>
+    simp only [gstep] at h; cases h
+    exact INV_of_MapShape g _ hi (resendData_shape _ _)
   | take =>
     simp only [gstep, takeResponses] at h; cases h
     obtain ⟨i1, i2⟩ := hi
@@ -1659,7 +1841,7 @@ theorem interval_item_reports (nodes : List (Nat × Nat)) (now : Nat) (it : MIte
     (hm : it.mode = .reporting) (hs : it.sampling = none) (hv : lookup nodes it.node = some v)
     (hc : it.last ≠ some v) :
     (itemTick nodes now true false it).2 = .report ∧
-    (itemTick nodes now true false it).1.q = C24.enqueue it.q v ∧
+    (itemTick nodes now true false it).1.q = C24.enqueue it.q (v * handleBase + it.handle) ∧
     (itemTick nodes now true false it).1.last = some v := by
   cases hl : it.last with
   | none => simp [itemTick, hm, hs, checkValue, hv, hl]
@@ -1699,10 +1881,11 @@ theorem C21_counterexample_no_request :
 /-- a state satisfying the hypotheses of `collected_is_queued`: enabled, not expiring, data collected -/
 def demoSub : Subn := {
   id := 1, priority := 0, interval := 1, maxLife := 20, maxKa := 3, state := .normal, life := 20, ka := 3,
-  firstSent := false, enabled := true, seqNext := 1, lastSeq := 0, nextItemId := 2, lastElapsed := none,
+  firstSent := false, enabled := true, resend := false, seqNext := 1, lastSeq := 0, nextItemId := 2,
+  lastElapsed := none,
   notifs := [],
   items := [{ id := 1, handle := 1, node := 1, mode := .reporting, sampling := none, lastSample := none,
-              q := C24.mk 5 1 true, last := none }] }
+              q := C24.mk 5 1 true, last := none, triggers := [] }] }
 
 example : demoSub.enabled = true ∧ ¬ Expiring demoSub ∧ SeqInv demoSub ∧
     (collectStep [(1, 0)] 1 (elapsedStep 1 true demoSub).2 (elapsedStep 1 true demoSub).1).2.isSome = true := by
